@@ -82,8 +82,9 @@ const (
 )
 
 type Event struct {
-	Kind EvKind
-	Addr int
+	Kind  EvKind
+	Addr  int
+	Phase uint8 // 1 = A-operand evaluation, 2 = B-operand evaluation, 3 = execution of the opcode
 }
 
 // Fold is the draft's Fold(pointer, limit, M).
@@ -132,9 +133,10 @@ func Step(core []Insn, pc, m, rl, wl int, rec, noFold bool) StepInfo {
 		}
 		return Fold(p, wl, m)
 	}
+	phase := uint8(1)
 	ev := func(k EvKind, a int) {
 		if rec {
-			info.Events = append(info.Events, Event{k, a})
+			info.Events = append(info.Events, Event{k, a, phase})
 		}
 	}
 	field := func(c *Insn, a bool) *int {
@@ -178,7 +180,9 @@ func Step(core []Insn, pc, m, rl, wl int, rec, noFold bool) StepInfo {
 	}
 
 	rpa, _, ira := evalOperand(ir.AM, ir.A)
+	phase = 2
 	rpb, wpb, irb := evalOperand(ir.BM, ir.B)
+	phase = 3
 
 	wab := (pc + wpb) % m
 	rab := (pc + rpa) % m
